@@ -444,7 +444,7 @@ func TestVerifC12Exhaustive(t *testing.T) {
 			cases = append(cases, p)
 		}
 	}
-	vw.RunFixed(t, vw.Options{Property: "C12", Engine: "exhaustive-subsets",
+	vw.RunFixed(t, vw.Options{Property: "C12", Engine: "exhaustive-subsets", Exhaustive: true,
 		Rule: "complete enumeration: 5 eligible nodes x all 32 subsets removed x 64 (address, node-name family) combinations = 2048 perturbations"}, cases, runPerturb)
 }
 
@@ -598,4 +598,59 @@ func TestVerifC10Views(t *testing.T) {
 		Rule: "1..3 nodes (conditions, labels, exclude label), ignore flag, 0..3 BGP advertisements with node/pool selectors, both policies, 0..3 slices x 0..4 endpoints over a 3-address alphabet with ready/serving in {nil,true,false} and node in {nodes, none, unknown}; closed-form iff on the domain where an endpoint address lives on one node, two safe implications on the unrestricted domain; non-trivial = repeated address, conflicting conditions, Local with endpoints only elsewhere, or exclude label with ignore flag",
 		Assumptions: []string{"main domain: all entries carrying an endpoint address name the same node (a pod IP is on one node)"}},
 		genBGPView, runBGPView)
+}
+
+// ---- bounded exhaustive enumeration for C04 (and the eligibility closed form of C10) -----------
+//
+// 3 nodes x per-node (speaker alive, NetworkUnavailable, exclude label, selected by the advertisement)
+// x memberlist on/off x ignore flag x traffic policy x 2 endpoints with node in {node0, node1, none}
+// and condition in {ready, not ready but serving, not serving}: 16^3 * 8 * 81 = 2 654 208 views.
+
+const c04EnumSize = 16 * 16 * 16 * 8 * 81
+
+func c04ViewAt(i int) vfView {
+	v := vfView{IPs: []string{"10.0.0.1"}, L2: []vw.L2AdvSpec{{Name: "l2", Pools: []string{"pool0"}, NodeSel: []vw.Sel{{"sel": "yes"}}}}}
+	for n := 0; n < 3; n++ {
+		f := i % 16
+		i /= 16
+		ns := vw.NodeSpec{Name: fmt.Sprintf("node%d", n), IPs: []string{fmt.Sprintf("192.168.0.%d", n+1)}, Unavailable: f&2 != 0, Excluded: f&4 != 0}
+		if f&8 != 0 {
+			ns.Labels = map[string]string{"sel": "yes"}
+		}
+		v.Nodes = append(v.Nodes, ns)
+		v.Alive = append(v.Alive, f&1 != 0)
+	}
+	g := i % 8
+	i /= 8
+	v.Disabled, v.Ignore, v.Local = g&1 != 0, g&2 != 0, g&4 != 0
+	s := vw.SliceSpec{Name: "s", NS: "ns0", Svc: "svc0"}
+	for e := 0; e < 2; e++ {
+		k := i % 9
+		i /= 9
+		ep := vw.EndpointSpec{Addrs: []string{fmt.Sprintf("10.244.0.%d", e+1)}, Node: []string{"node0", "node1", ""}[k%3]}
+		switch k / 3 {
+		case 0:
+			ep.Ready = 1
+		case 1:
+			ep.Ready, ep.Serving, ep.Term = 2, 1, 1
+		case 2:
+			ep.Ready, ep.Serving = 2, 2
+		}
+		s.Endpoints = append(s.Endpoints, ep)
+	}
+	v.Slices = []vw.SliceSpec{s}
+	return v
+}
+
+func TestVerifC04Exhaustive(t *testing.T) {
+	vw.RunEnum(t, vw.Options{Property: "C04", Engine: "exhaustive-views",
+		Rule: "complete enumeration (thorough tier; the quick tier visits every 64th view, offset by the seed): 3 nodes x (speaker alive, NetworkUnavailable, exclude label, selected) x memberlist on/off x ignore flag x traffic policy x 2 endpoints (node0/node1/none x ready / terminating-but-serving / not serving) = 2 654 208 views; non-trivial = >=2 eligible nodes or eligible set != node set"},
+		c04EnumSize, 64, c04ViewAt,
+		func(v vfView, tr *vw.Trace) *vw.Violation {
+			_, el, viol := judgeView(v, tr)
+			if len(el) >= 2 || (el != nil && len(el) != len(v.Nodes)) {
+				tr.NonTrivial()
+			}
+			return viol
+		})
 }
